@@ -1048,7 +1048,8 @@ class AstEval:
         else:
             for arg1 in arg.orelse:
                 val = await self.aeval(arg1)
-                if isinstance(val, EvalReturn):
+                if isinstance(val, EvalStopFlow):
+                    # break and continue in the else clause apply to the enclosing loop
                     return val
         return None
 
@@ -1070,7 +1071,8 @@ class AstEval:
         else:
             for arg1 in arg.orelse:
                 val = await self.aeval(arg1)
-                if isinstance(val, EvalReturn):
+                if isinstance(val, EvalStopFlow):
+                    # break and continue in the else clause apply to the enclosing loop
                     return val
         return None
 
